@@ -21,7 +21,7 @@
    bodies (needs the kinematics model), element elasticity / bending, flex collision geometry.
    Every search-loop theorem assumes that some flex owns the index (the real kernel reads an
    uninitialised register otherwise; the launch grid excludes that case). *)
-From Coq Require Import ZArith Reals List Bool Lra Lia String.
+From Coq Require Import ZArith Reals List Bool Lra Lia String Psatz.
 From VF Require Import Base.Scalar Base.ScalarR Base.Vec Base.Loop Base.Kernel Gen.T_flex Model.Flex.
 Import ListNotations.
 Local Open Scope Z_scope.
@@ -610,3 +610,168 @@ Example free_body_sat :
 Proof.
   split; [reflexivity|]. intros k Hk. assert (Hc : k = 0 \/ k = 1 \/ k = 2) by lia. destruct Hc as [E|[E|E]]; subst k; cbv; repeat split; reflexivity.
 Qed.
+
+(* ======================================================================================
+   flex-vs-plane broadphase (collision_flex._flex_broadphase_bounds / _flex_broadphase_plane,
+   translated into Gen/T_flex.v): the stage-1 box cull is CONSERVATIVE.
+   ====================================================================================== *)
+Local Open Scope R_scope.
+(* sum |n_i| >= 1 for a unit vector *)
+Lemma abs_sum_ge_1 (a b c : R) : a*a + b*b + c*c = 1 -> 1 <= Rabs a + Rabs b + Rabs c.
+Proof.
+  intros H. pose proof (Rabs_pos a). pose proof (Rabs_pos b). pose proof (Rabs_pos c).
+  assert (E : (Rabs a + Rabs b + Rabs c) * (Rabs a + Rabs b + Rabs c) >= 1).
+  { replace (a*a) with (Rabs a * Rabs a) in H by (rewrite <- Rabs_mult; apply Rabs_pos_eq; nra).
+    replace (b*b) with (Rabs b * Rabs b) in H by (rewrite <- Rabs_mult; apply Rabs_pos_eq; nra).
+    replace (c*c) with (Rabs c * Rabs c) in H by (rewrite <- Rabs_mult; apply Rabs_pos_eq; nra).
+    nra. }
+  nra.
+Qed.
+
+Lemma abs_term (h d n : R) : Rabs d <= h -> - (h * Rabs n) <= d * n.
+Proof.
+  intros Hd. assert (Rabs (d * n) <= h * Rabs n).
+  { rewrite Rabs_mult. apply Rmult_le_compat_r. apply Rabs_pos. exact Hd. }
+  pose proof (Rle_abs (- (d * n))). rewrite Rabs_Ropp in H0. lra.
+Qed.
+
+(* the geometric core of the stage-1 cull: a point inside the box shrunk by b >= 0 on every side
+   is at least  dist_center - sum|h_i n_i| + b  from the plane *)
+Lemma box_plane_bound (m0 m1 m2 M0 M1 M2 v0 v1 v2 p0 p1 p2 n0 n1 n2 b : R) :
+  n0*n0 + n1*n1 + n2*n2 = 1 -> 0 <= b ->
+  m0 + b <= v0 <= M0 - b -> m1 + b <= v1 <= M1 - b -> m2 + b <= v2 <= M2 - b ->
+  let c0 := 1/2 * (m0 + M0) in let c1 := 1/2 * (m1 + M1) in let c2 := 1/2 * (m2 + M2) in
+  let h0 := 1/2 * (M0 - m0) in let h1 := 1/2 * (M1 - m1) in let h2 := 1/2 * (M2 - m2) in
+  ((c0 - p0) * n0 + (c1 - p1) * n1 + (c2 - p2) * n2) - (Rabs (h0 * n0) + Rabs (h1 * n1) + Rabs (h2 * n2)) + b
+  <= (v0 - p0) * n0 + (v1 - p1) * n1 + (v2 - p2) * n2.
+Proof.
+  intros Hn Hb H0 H1 H2 c0 c1 c2 h0 h1 h2.
+  assert (Hh0 : 0 <= h0 - b) by (unfold h0; lra). assert (Hh1 : 0 <= h1 - b) by (unfold h1; lra). assert (Hh2 : 0 <= h2 - b) by (unfold h2; lra).
+  rewrite !Rabs_mult. rewrite (Rabs_pos_eq h0), (Rabs_pos_eq h1), (Rabs_pos_eq h2) by lra.
+  pose proof (abs_term (h0 - b) (v0 - c0) n0 ltac:(apply Rabs_le; unfold c0, h0; lra)).
+  pose proof (abs_term (h1 - b) (v1 - c1) n1 ltac:(apply Rabs_le; unfold c1, h1; lra)).
+  pose proof (abs_term (h2 - b) (v2 - c2) n2 ltac:(apply Rabs_le; unfold c2, h2; lra)).
+  pose proof (abs_sum_ge_1 n0 n1 n2 Hn).
+  pose proof (Rabs_pos n0). pose proof (Rabs_pos n1). pose proof (Rabs_pos n2).
+  nra.
+Qed.
+
+Lemma smin_le (a b : R) : smin a b <= a /\ smin a b <= b.
+Proof. unfold smin. sR. destruct (Rltb b a) eqn:E; [apply Rltb_true in E|apply Rltb_false in E]; lra. Qed.
+Lemma smax_ge (a b : R) : a <= smax a b /\ b <= smax a b.
+Proof. unfold smax. sR. destruct (Rltb a b) eqn:E; [apply Rltb_true in E|apply Rltb_false in E]; lra. Qed.
+
+Section Bounds.
+  Variables (w f : Z) (flex_margin flex_gap : Z -> R) (flex_vertadr flex_vertnum : Z -> Z) (flex_radius : Z -> R)
+            (px py pz : Z -> Z -> R) (omin omax : Z -> Z -> list R) (orc : nat -> Z).
+  Definition bb_pos (w i : Z) : list R := [px w i; py w i; pz w i].
+  Definition wsb := k__flex_broadphase_bounds w f flex_margin flex_gap flex_vertadr flex_vertnum flex_radius bb_pos omin omax orc.
+  Definition bb_start := flex_vertadr f.
+  Definition bb_infl : R := flex_radius f + (flex_margin f + flex_gap f).
+
+  Definition bstep (i : Z) (acc : list R * list R) : list R * list R :=
+    (vmap2 smin (fst acc) (bb_pos w (bb_start + i)%Z), vmap2 smax (snd acc) (bb_pos w (bb_start + i)%Z)).
+
+  Lemma hull_fold n : forall lo a0 a1 a2 ub0 ub1 ub2,
+    exists A0 A1 A2 B0 B1 B2,
+      for_nat n lo ([a0; a1; a2], [ub0; ub1; ub2]) bstep = ([A0; A1; A2], [B0; B1; B2]) /\
+      A0 <= a0 /\ A1 <= a1 /\ A2 <= a2 /\ ub0 <= B0 /\ ub1 <= B1 /\ ub2 <= B2 /\
+      forall i, (lo <= i < lo + Z.of_nat n)%Z ->
+        A0 <= px w (bb_start + i) <= B0 /\ A1 <= py w (bb_start + i) <= B1 /\ A2 <= pz w (bb_start + i) <= B2.
+  Proof.
+    induction n; intros.
+    - exists a0, a1, a2, ub0, ub1, ub2. simpl. repeat split; try lra. all: lia.
+    - cbn [for_nat]. unfold bstep at 2. cbn [fst snd bb_pos vmap2].
+      destruct (IHn (lo + 1)%Z (smin a0 (px w (bb_start + lo))) (smin a1 (py w (bb_start + lo))) (smin a2 (pz w (bb_start + lo)))
+                     (smax ub0 (px w (bb_start + lo))) (smax ub1 (py w (bb_start + lo))) (smax ub2 (pz w (bb_start + lo))))
+        as (A0 & A1 & A2 & B0 & B1 & B2 & E & L0 & L1 & L2 & U0 & U1 & U2 & Hall).
+      exists A0, A1, A2, B0, B1, B2. split; [exact E|].
+      pose proof (smin_le a0 (px w (bb_start + lo))). pose proof (smin_le a1 (py w (bb_start + lo))). pose proof (smin_le a2 (pz w (bb_start + lo))).
+      pose proof (smax_ge ub0 (px w (bb_start + lo))). pose proof (smax_ge ub1 (py w (bb_start + lo))). pose proof (smax_ge ub2 (pz w (bb_start + lo))).
+      repeat split; try lra.
+      all: destruct (Z.eq_dec i lo) as [->|Hne]; [lra | apply Hall; lia].
+  Qed.
+
+  (* the box written by _flex_broadphase_bounds contains every vertex of the flex with `bb_infl` to spare on each side *)
+  Theorem flex_aabb_contains_vertices : (0 < flex_vertnum f)%Z ->
+    exists m0 m1 m2 M0 M1 M2,
+      wsb = [ mkW "flex_aabb_min_out"%string [w; f] KSet (VV [m0; m1; m2]);
+              mkW "flex_aabb_max_out"%string [w; f] KSet (VV [M0; M1; M2]) ] /\
+      forall i, (0 <= i < flex_vertnum f)%Z ->
+        m0 + bb_infl <= px w (bb_start + i) <= M0 - bb_infl /\ m1 + bb_infl <= py w (bb_start + i) <= M1 - bb_infl /\
+        m2 + bb_infl <= pz w (bb_start + i) <= M2 - bb_infl.
+  Proof.
+    intros Hn. unfold wsb, k__flex_broadphase_bounds. cbv zeta.
+    replace (flex_vertnum f =? 0)%Z with false by (symmetry; apply Z.eqb_neq; lia).
+    unfold for_range. fold bb_start.
+    match goal with |- context [for_nat ?n 0%Z (?a, ?b) ?g] =>
+      replace (for_nat n 0%Z (a, b) g) with (for_nat n 0%Z (a, b) bstep) by reflexivity;
+      destruct (hull_fold n 0%Z (sofZ 10000000000) (sofZ 10000000000) (sofZ 10000000000)
+                          (sneg (sofZ 10000000000)) (sneg (sofZ 10000000000)) (sneg (sofZ 10000000000)))
+        as (A0 & A1 & A2 & B0 & B1 & B2 & E & _ & _ & _ & _ & _ & _ & Hall)
+    end.
+    rewrite E. cbn [fst snd vsub vadd vmap2 app]. sR. fold bb_infl.
+    exists (A0 - bb_infl), (A1 - bb_infl), (A2 - bb_infl), (B0 + bb_infl), (B1 + bb_infl), (B2 + bb_infl).
+    split; [reflexivity|].
+    intros i Hi. specialize (Hall i). rewrite Z.sub_0_r, Z2Nat.id in Hall by lia.
+    specialize (Hall ltac:(lia)). lra.
+  Qed.
+End Bounds.
+
+Section PlaneCull.
+  Variables (w pairid : Z) (geom_type : Z -> Z) (geom_margin : Z -> Z -> R) (flex_margin flex_radius : Z -> R)
+            (pairs : Z -> list Z) (flex_vertflexid : Z -> Z)
+            (geom_xpos_in geom_xmat_in flexvert_xpos_in : Z -> Z -> list R) (naconmax : Z)
+            (aabb_min aabb_max : Z -> Z -> list R) (ncollision overflow : Z -> Z) (cpair : Z -> list Z) (cworld : Z -> Z)
+            (orc : nat -> Z) (gm_shape0 : Z).
+  Definition wsp := k__flex_broadphase_plane w pairid geom_type geom_margin flex_margin flex_radius pairs flex_vertflexid
+                      geom_xpos_in geom_xmat_in flexvert_xpos_in naconmax aabb_min aabb_max ncollision overflow cpair cworld orc gm_shape0.
+  Definition pc_vertid := zget (pairs pairid) 0.
+  Definition pc_geomid := zget (pairs pairid) 1.
+  Definition pc_flexid := flex_vertflexid pc_vertid.
+  Definition pc_margin := geom_margin (Z.rem w gm_shape0) pc_geomid + flex_margin pc_flexid.
+  Variables r0 r1 r2 r3 r4 r5 r6 r7 r8 p0 p1 p2 v0 v1 v2 m0 m1 m2 M0 M1 M2 b : R.
+  Hypothesis Hplane : geom_type pc_geomid = 0%Z.
+  Hypothesis Hrot : geom_xmat_in w pc_geomid = [r0; r1; r2; r3; r4; r5; r6; r7; r8].
+  Hypothesis Hunit : r2*r2 + r5*r5 + r8*r8 = 1.
+  Hypothesis Hpos : geom_xpos_in w pc_geomid = [p0; p1; p2].
+  Hypothesis Hvert : flexvert_xpos_in w pc_vertid = [v0; v1; v2].
+  Hypothesis Hmin : aabb_min w pc_flexid = [m0; m1; m2].
+  Hypothesis Hmax : aabb_max w pc_flexid = [M0; M1; M2].
+  (* what _flex_broadphase_bounds guarantees: the box is the hull of the vertices inflated by b = radius + pc_margin + gap *)
+  Hypothesis Hb : flex_radius pc_flexid <= b /\ 0 <= b.
+  Hypothesis Hbox : m0 + b <= v0 <= M0 - b /\ m1 + b <= v1 <= M1 - b /\ m2 + b <= v2 <= M2 - b.
+
+  Definition pc_signed_dist := (v0 - p0) * r2 + (v1 - p1) * r5 + (v2 - p2) * r8.
+
+  (* the task emits a candidate (any write at all) exactly when the vertex sphere is within pc_margin of
+     the plane: the stage-1 box cull never discards such a vertex *)
+  Theorem plane_cull_conservative : wsp = [] <-> pc_margin <= pc_signed_dist - flex_radius pc_flexid.
+  Proof.
+    unfold wsp, k__flex_broadphase_plane. cbv zeta. fold pc_vertid pc_geomid. fold pc_flexid.
+    unfold Zneb. rewrite Hplane. cbn [Z.eqb negb].
+    rewrite Hrot, Hpos, Hvert, Hmin, Hmax.
+    set (R9 := [r0; r1; r2; r3; r4; r5; r6; r7; r8]).
+    change (mget 3 R9 0 2) with r2. change (mget 3 R9 1 2) with r5. change (mget 3 R9 2 2) with r8.
+    cbn [vscale vadd vsub vmap2 map vdot vdot_acc].
+    change (vget [?a; ?b; ?c] 0) with a.
+    repeat match goal with
+    | |- context [vget [?a; ?b; ?c] 0] => change (vget [a; b; c] 0) with a
+    | |- context [vget [?a; ?b; ?c] 1] => change (vget [a; b; c] 1) with b
+    | |- context [vget [?a; ?b; ?c] 2] => change (vget [a; b; c] 2) with c
+    end.
+    unfold sgtb, sgeb. sR. fold pc_margin.
+    pose proof (box_plane_bound m0 m1 m2 M0 M1 M2 v0 v1 v2 p0 p1 p2 r2 r5 r8 b Hunit (proj2 Hb)
+                  (proj1 Hbox) (proj1 (proj2 Hbox)) (proj2 (proj2 Hbox))) as B. cbv zeta in B.
+    fold pc_signed_dist in B |- *.
+    replace (IZR 1 / IZR 2) with (1/2) by reflexivity.
+    match goal with |- context [Rltb pc_margin ?x] => set (gap := x) in *; destruct (Rltb pc_margin gap) eqn:C1 end.
+    - apply Rltb_true in C1. split; [intros _|reflexivity]. destruct Hb as [Hb1 Hb2]. lra.
+    - destruct (Rleb pc_margin (pc_signed_dist - flex_radius pc_flexid)) eqn:C2.
+      + apply Rleb_true in C2. tauto.
+      + apply Rleb_false in C2. split; [|intros; lra].
+        destruct (orc 0 >=? naconmax)%Z; simpl; discriminate.
+  Qed.
+End PlaneCull.
+
+Local Close Scope R_scope.
